@@ -304,10 +304,11 @@ impl State for FileState {
     async fn apply(&self, user_id: u32, command: EntryCommand) -> Result<(), IggyError> {
         debug!("Applying state entry with command: {command}, user ID: {user_id}");
         let timestamp = IggyTimestamp::now();
+        // The counters are advanced only after the entry has been appended successfully.
         let index = if self.entries_count.load(Ordering::SeqCst) == 0 {
             0
         } else {
-            self.current_index.fetch_add(1, Ordering::SeqCst) + 1
+            self.current_index.load(Ordering::SeqCst) + 1
         };
         let term = self.term.load(Ordering::SeqCst);
         let current_leader = self.current_leader.load(Ordering::SeqCst);
@@ -361,7 +362,6 @@ impl State for FileState {
             command,
         );
         let bytes = entry.to_bytes();
-        self.entries_count.fetch_add(1, Ordering::SeqCst);
         self.persister
             .append(&self.path, &bytes)
             .await
@@ -372,6 +372,8 @@ impl State for FileState {
                     bytes.len()
                 )
             })?;
+        self.current_index.store(index, Ordering::SeqCst);
+        self.entries_count.fetch_add(1, Ordering::SeqCst);
         debug!("Applied state entry: {entry}");
         Ok(())
     }
